@@ -57,6 +57,7 @@ func (s *BoltStore) Get(name enc.Name, prefix bool) (wire []byte, err error) {
 		if prefix {
 			c := bucket.Cursor()
 			iter := 1000
+			found := false
 			maxVer := uint64(0)
 			for k, v := c.Seek(key); k != nil && bytes.HasPrefix(k, key); k, v = c.Next() {
 				if iter--; iter <= 0 {
@@ -69,7 +70,9 @@ func (s *BoltStore) Get(name enc.Name, prefix bool) (wire []byte, err error) {
 					continue
 				}
 				ver := binary.BigEndian.Uint64(v[:8])
-				if ver > maxVer {
+				if !found || ver > maxVer {
+					found = true
+					maxVer = ver
 					wire = v[8:]
 				}
 			}
